@@ -392,6 +392,9 @@ class FFDirector(SectionLineParser):
         context = self.get_context(context_type)
         interaction_name = self.section[-1]
         delete = False
+        if interaction_name.startswith('!'):
+            interaction_name = interaction_name[1:]
+            delete = True
         tokens = collections.deque(_tokenize(line))
         if tokens[0] == '#meta':
             _parse_meta(
@@ -417,16 +420,20 @@ class FFDirector(SectionLineParser):
           # they generate edges. Here we move the all the impropers into their own
           # [ impropers ] section.
 
+        if delete:
+            interactions = context.removed_interactions
+        else:
+            interactions = context.interactions
         propers = []
-        impropers = context.interactions.get('impropers', [])
-        for dihedral in context.interactions.get('dihedrals', []):
+        impropers = interactions.get('impropers', [])
+        for dihedral in interactions.get('dihedrals', []):
             if dihedral.parameters and dihedral.parameters[0] == '2':
                 impropers.append(dihedral)
             else:
                 propers.append(dihedral)
 
-        context.interactions['dihedrals'] = propers
-        context.interactions['impropers'] = impropers
+        interactions['dihedrals'] = propers
+        interactions['impropers'] = impropers
 
 
     @SectionLineParser.section_parser('moleculetype', 'patterns')
